@@ -326,7 +326,11 @@ func encodeStruct(v reflect.Value, o *Opts) *Node {
 		if o.FullPath {
 			name = t.PkgPath() + "/" + t.Name()
 		}
-		n.Members = append(n.Members, &Member{Key: o.CreateKey, Val: str(name), Pres: Must, Field: -1})
+		pres := Must
+		if name == "" && o.OmitEmpty {
+			pres = OptFree // an anonymous type: the member is an empty string, which OmitEmpty skips
+		}
+		n.Members = append(n.Members, &Member{Key: o.CreateKey, Val: str(name), Pres: pres, Field: -1})
 	}
 	collect(n, v, o, -1, false)
 	return n
@@ -405,6 +409,7 @@ func collect(n *Node, v reflect.Value, o *Opts, top int, absent bool) {
 			continue // the tag drops exactly this field
 		}
 		val := encode(fv, o)
+		typedNil := omitTag && fv.Kind() == reflect.Interface && isNilRef(fv)
 		if asString {
 			switch fv.Kind() {
 			case reflect.Bool:
@@ -444,6 +449,11 @@ func collect(n *Node, v reflect.Value, o *Opts, top int, absent bool) {
 		pres, keep := memberPresence(fv, val, o, true)
 		if !keep {
 			continue
+		}
+		if typedNil && pres < OptAgree {
+			// omitempty on an interface holding a typed nil pointer: encoding/json
+			// keeps null, "nil is empty" is as good a reading
+			pres = OptAgree
 		}
 		n.Members = append(n.Members, &Member{Key: key, Val: val, Pres: pres, Field: origin})
 	}
